@@ -10,22 +10,27 @@ def register(reg):
              "idna_ok(hp(h)) and idna_ok(hp(strip_dot(ref))) and "
              "(idna(hp(h)) == idna(hp(strip_dot(ref))) or "
              " (ref.startswith('.') and idna(hp(h)).endswith('.' + idna(hp(strip_dot(ref))))))")
+    # per-entry facts as ghost functions of the index (definitions instantiated at ground indices)
+    reg.defn("M(h, tl, j)", "host_matches(h, tl[j])", {"h": "str", "tl": "List[str]", "j": "int"})
+    reg.defn("OK(tl, j)", "idna_ok(hp(strip_dot(tl[j])))", {"tl": "List[str]", "j": "int"})
+    reg.contract("werkzeug/sansio/utils.py:_strip_port", prop="C20,C07", params={"host": "str"}, returns="str",
+                 ensures=["result == hp(host)"], replay="pure")
     reg.contract(
         "werkzeug/sansio/utils.py:host_is_trusted", prop="C20,C07",
-        params={"hostname": "Optional[str]", "trusted_list": "List[str]"}, returns="bool", replay="pure",
+        params={"hostname": "Optional[str]", "trusted_list": "List[str]"}, returns="bool",
         ensures=[
             # accepted only if it equals a listed name or is a true subdomain of a dot-prefixed entry
             "implies(result, hostname is not None and len(hostname) > 0 and "
-            "        exists(0, len(trusted_list), lambda j: host_matches(hostname, trusted_list[j])))",
+            "        exists(0, len(trusted_list), lambda j: M(hostname, trusted_list, j)))",
             # and a listed host is accepted (as long as no malformed entry precedes it)
             "implies(not result and hostname is not None and len(hostname) > 0 and idna_ok(hp(hostname)) and "
-            "        forall(0, len(trusted_list), lambda j: idna_ok(hp(strip_dot(trusted_list[j])))), "
-            "        forall(0, len(trusted_list), lambda j: not host_matches(hostname, trusted_list[j])))",
+            "        forall(0, len(trusted_list), lambda j: OK(trusted_list, j)), "
+            "        forall(0, len(trusted_list), lambda j: not M(hostname, trusted_list, j)))",
         ],
         raises={},  # malformed hosts are refused (False), nothing escapes
-        loops={0: {"inv": ["forall(0, _i, lambda j: idna_ok(hp(strip_dot(trusted_list[j]))) and "
-                           "not host_matches(hostname, trusted_list[j]))",
-                           "idna_ok(hp(old(hostname))) and hostname == idna(hp(old(hostname)))"]}},
+        loops={0: {"inv": ["forall(0, _i, lambda j: OK(trusted_list, j) and not M(old(hostname), trusted_list, j))",
+                           "idna_ok(hp(old(hostname))) and hostname == idna(hp(old(hostname)))"],
+                   "hints": ["M(old(hostname), trusted_list, _i)", "OK(trusted_list, _i)"]}},
     )
     reg.spec("std_host(scheme, host)",
              "host[:-3] if ((scheme == 'http' or scheme == 'ws') and host.endswith(':80')) else "
@@ -39,7 +44,7 @@ def register(reg):
             "implies(host_header is not None, result == std_host(scheme, host_header))",
             "implies(host_header is None and server is None, result == '')",
             "implies(trusted_hosts is not None, len(result) > 0 and "
-            "        exists(0, len(trusted_hosts), lambda j: host_matches(result, trusted_hosts[j])))",
+            "        exists(0, len(trusted_hosts), lambda j: M(result, trusted_hosts, j)))",
         ],
         raises={"SecurityError": "trusted_hosts is not None"},
     )
